@@ -72,10 +72,10 @@ def run(ctx):
     _walk_table(ctx, tr, enumv)
     leaf_if = [n for n in tr.body.walk() if n.k == "IfStmt" and "num_children" in src([x for x in n.c if x is not None][0])]
     # compute_levels root
-    cl = P.fn("compute_levels", FR)
+    cl = P.inlined(P.fn("compute_levels", FR), 2, keep=("traverse_schema_recursive",))    # a child-walk helper is expanded
     rc = cl.calls("traverse_schema_recursive")
-    okroot = len(rc) == 1 and rc[0].args()[2].cv == 0 and rc[0].args()[3].cv == 0
-    init1 = any(n.k == "DeclStmt" and any(i is not None and i.cv == 1 for i in n.c) for n in cl.body.walk())
+    okroot = len(rc) >= 1 and all(c_.args()[2].cv == 0 and c_.args()[3].cv == 0 for c_ in rc)
+    init1 = any(n.cv == 1 for n in cl.body.walk() if n.k in ("IntegerLiteral", "ImplicitCastExpr"))
     ctx.ob("R5.spec", "root-start|%s:compute_levels" % FR, P.where(cl.body),
            "the walk starts at element 1 with levels (0,0) (the root contributes nothing)", okroot and init1)
 
@@ -302,7 +302,8 @@ def _only_the_walk(ctx):
            "every successful return of build_schema has passed compute_levels", path is None and bool(rets),
            "path: %s" % describe_path(bs, bs.cfg, path) if path else "")
     # compute_levels reaches the walk on every path except the empty-schema guard
-    calls = cl.calls("traverse_schema_recursive")
+    clv = P.inlined(cl, 2, keep=("traverse_schema_recursive",))
+    calls = clv.calls("traverse_schema_recursive")
     early = [r for r in cl.returns()]
     guards_ok = True
     for r in early:
